@@ -326,7 +326,8 @@ prop(
 
 prop(
     id="C04",
-    stages=[POOL_STAGE, GATE_STAGE, dict(name="c04runs", pkg="c02", test="TestC04Runs", access=[WORKERS_ACCESS, POOL_ACCESS, RUN_ACCESS], timeout_quick=300, timeout_thorough=3000)],
+    stages=[POOL_STAGE, GATE_STAGE, dict(name="c04runs", pkg="c02", test="TestC04Runs", access=[WORKERS_ACCESS, POOL_ACCESS, RUN_ACCESS], timeout_quick=300, timeout_thorough=3000),
+            dict(name="c04gateway", pkg="c02", test="TestC04SlowGateway", access=[WORKERS_ACCESS, POOL_ACCESS, RUN_ACCESS], timeout_quick=300, timeout_thorough=3000)],
     rule="scenario-side atomic in-flight counter with high-water mark and a live set of *T pointers (duplicate insert = shared handle) in (a) the pool histories of C02, (b) whole runs of constant, staged, ramp, gaussian and users triggers "
          "with concurrency 1-16 whose first iterations only return once `concurrency` of them overlap (rendezvous, 3s timeout = not all workers usable); oracle = extracted predicate c04_ok; config files of users stages only (long iterations) and of a users stage with its own concurrency followed by a saturated constant stage (per-stage in-flight by stage parameter); every third iteration of the whole runs registers a cleanup from inside a cleanup, and a second rendezvous 60 ms into the run requires all workers to be usable still; single-tick usability histories on the real pool (requests not a multiple of the workers); every rendezvous counts iterations executing at the same time; non-trivial = rendezvous runs; distinct = distinct observations" + GATE_RULE,
     assumptions=["in the model worker i owns handle i by construction; handle identity in the code is observed, not modelled", "file mode is outside the statement (consecutive stages' pools may overlap)"],
